@@ -326,7 +326,7 @@ func c17Gen(rng *gen.Rng, population string) *c17Hist {
 			burst--
 			p = burstPath
 		}
-		render := rng.Pick([]string{"top", "direct", "direct", "direct", "funcparam", "funcglobal", "funcdirect", "nested", "nested", "if", "ifdirect", "for", "fordirect", "shared", "shared", "unused", "elsedirect", "scopes", "reexec", "paramglobal", "untilexists", "nottaken", "multiret", "globalupdate"})
+		render := rng.Pick([]string{"top", "direct", "direct", "direct", "funcparam", "funcglobal", "funcdirect", "nested", "nested", "if", "ifdirect", "for", "fordirect", "shared", "shared", "unused", "elsedirect", "scopes", "reexec", "paramglobal", "untilexists", "nottaken", "multiret", "globalupdate", "afterchain", "flagafter"})
 		if inBurst {
 			render = rng.Pick([]string{"direct", "direct", "top"})
 		}
@@ -732,6 +732,26 @@ func (h *c17Hist) render(seed uint64) []*c17Segment {
 			}
 			return fmt.Sprintf("func fi%d(q%d string) string {\nv%d := q%d + \"!\"\nw%d := v%d\nreturn w%d\n}\nfunc fn%d(%s) {\nu%d := fi%d(\"k\")\n%sprint(\"<<N>>\" + u%d)\n}\nfn%d(%s)\n",
 				id, id, id, id, id, id, id, id, strings.Join(ps, ", "), id, id, body, id, id, strings.Join(as, ", "))
+		case "afterchain":
+			// the operation FOLLOWS an if / else-if / else chain (or a switch with default) whose
+			// first and last branches leave the function, while the branch that is taken does not
+			ps, as := []string{}, []string{}
+			for _, p := range params {
+				ps = append(ps, p[0]+" "+"string")
+				as = append(as, p[1])
+			}
+			chain := fmt.Sprintf("if 2 < 1 {\nreturn \"a\"\n} else if 1 < 2 {\ngq%d := 1\ngq%d++\n} else {\nreturn \"c\"\n}\n", id, id)
+			if rng.Chance(40) {
+				chain = fmt.Sprintf("switch 2 {\ncase 1:\nreturn \"a\"\ncase 2:\ngq%d := 1\ngq%d++\ndefault:\nreturn \"c\"\n}\n", id, id)
+			}
+			return fmt.Sprintf("func fn%d(%s) string {\n%s%sreturn \"done\"\n}\ngr%d := fn%d(%s)\nprint(\"<<N>>\" + gr%d)\n", id, strings.Join(ps, ", "), chain, body, id, id, strings.Join(as, ", "), id)
+		case "flagafter":
+			// the append flag is exists(p), evaluated AFTER the content argument, which is a call of a
+			// function that (re)creates p with a heading: arguments are evaluated from left to right
+			var g strings.Builder
+			fmt.Fprintf(&g, "func gh%d(gp%d string, gc%d string) string {\nwrite(gp%d, \"# heading\")\nreturn gc%d\n}\n", id, id, id, id, id)
+			fmt.Fprintf(&g, "write(%s, gh%d(%s, %s), exists(%s))\n", params[0][1], id, params[0][1], params[1][1], params[0][1])
+			return g.String()
 		case "globalupdate":
 			// the path lives in a GLOBAL that a function completes with a compound assignment
 			// (logfile += ".1" in rotate()); the operation then uses the global
@@ -972,6 +992,8 @@ func (h *c17Hist) render(seed uint64) []*c17Segment {
 				// the loop does not run at all
 			} else if op.Render == "nottaken" {
 				// control never reaches the operation
+			} else if op.Render == "flagafter" {
+				m.Files[op.Path] = "# heading\n" + op.Content + "\n" // (whatever the operation's own kind: the rendering is one fixed statement)
 			} else if isAppend {
 				m.Files[op.Path] = m.Files[op.Path] + strings.Repeat(op.Content+"\n", loopN)
 			} else {
